@@ -112,7 +112,7 @@ func mkRdConn(kind string) *rdConn {
 		}
 		dst := &net.UDPAddr{IP: net.ParseIP("10.0.0.1"), Port: 5000}
 		return &rdConn{kind: kind, setRD: c.SetReadDeadline, read: c.Read,
-			deliver: func(p []byte) { _, _ = w.WriteTo(p, dst); zzvsched.WaitIdle() },
+			deliver: func(p []byte) { _, _ = w.WriteTo(p, dst); zzvsched.WaitQuiet(time.Microsecond) },
 			cleanup: func() { _ = r.Stop() }}
 	case "bridge":
 		br := ttest.NewBridge()
